@@ -1454,6 +1454,13 @@ def gen_hostile_cases(seed, count):
                 order, _, _ = gen_descr_ast(r)
                 data = mutate_text(r, render_descr(r, order))
                 if r.random() < 0.3: data += r.choice([b"'", b"/*", b"/", b"# 99999999999999999999", b"TERM x = 99999999999", b"'\x80'"])
+                if r.random() < 0.25:
+                    # long identifiers in the diagnostics of the description reader (fixed-size buffers)
+                    nm = b'Q' * r.choice([98, 99, 100, 101, 150, 199, 200, 300, 1000])
+                    data = r.choice([b"TERM " + nm + b" = 1 " + nm + b" = 2 ; S : " + nm + b" ;",
+                                     b"TERM " + nm + b" ; " + nm + b" : 'a' ;",
+                                     b"S : " + nm + b" ; " + nm + b" : " + nm + b" ;",
+                                     b"TERM a = 1 " + nm + b" = 1 ; S : a ;"])
             c.append('text 0 %s' % data.hex())
             op('create 0'); op('set 0 debug %d' % r.choice([0, 0, 3, 6])); op('descr 0 0 %d' % r.randint(0, 1)); op('err 0')
             op('parse 0 user user 1 %s' % ' '.join(str(r.choice([0, 97, 256, 300])) for _ in range(r.randint(0, 3))))
